@@ -57,7 +57,10 @@ dr_pi_dag_node NODE_POOL2[NMAX];
 long MAP_POOL[NMAX];
 dr_string_table_cell CELL_POOL[4];
 typedef struct { dr_pi_string_table h; long I[2]; char C[8]; } flat2_t;      /* a flattened table of two 3-character names */
-flat2_t S_IN, S_OUT;
+typedef struct { dr_pi_string_table h; long I[3]; char C[12]; } flat3_t;     /* ... of three */
+#define FLAT3_BYTES (sizeof(dr_pi_string_table) + 3 * sizeof(long) + 12)    /* what flatten asks for (sizeof(flat3_t) has 4 bytes of padding) */
+flat2_t S_OUT;
+flat3_t S_IN, S_OUT3;
 dr_event_queue Q_POOL;
 dr_event EV_POOL[100];
 int RC_POOL[NMAX];
@@ -77,7 +80,8 @@ void * verif_malloc_plan(size_t sz) {
   case P_MAP:    __CPROVER_assert(sz <= sizeof(MAP_POOL), "bounded model of malloc: index map"); return MAP_POOL;
   case P_NODE2:  __CPROVER_assert(sz <= sizeof(NODE_POOL2) && sz % sizeof(dr_pi_dag_node) == 0, "bounded model of malloc: node array of the copy"); return NODE_POOL2;
   case P_CELL:   __CPROVER_assert(sz == sizeof(dr_string_table_cell) && g_cells < 4, "bounded model of malloc: string table cell"); return &CELL_POOL[g_cells++];
-  case P_STR:    __CPROVER_assert(sz == sizeof(S_OUT), "bounded model of malloc: flattened string table of two 3-character names"); return &S_OUT;
+  case P_STR:    __CPROVER_assert(sz == sizeof(S_OUT) || sz == FLAT3_BYTES, "bounded model of malloc: flattened string table of two or three 3-character names");
+                 if (sz == sizeof(S_OUT)) return &S_OUT; return &S_OUT3;
   case P_QUEUE:  __CPROVER_assert(sz == sizeof(Q_POOL), "bounded model of malloc: event queue"); return &Q_POOL;
   case P_EVENTS: __CPROVER_assert(sz <= sizeof(EV_POOL), "bounded model of malloc: event array"); return EV_POOL;
   default:       __CPROVER_assert(k == P_RC && sz <= sizeof(RC_POOL), "bounded model of malloc: ready counters"); return RC_POOL;
@@ -120,14 +124,14 @@ dr_pi_dag G;
 dr_pi_dag_node T[NMAX];
 static int g_next;                      /* next free slot of T */
 
-static int put(int kind, int in_edge, long t0, long t1, long last_start, int worker, int file) {
+static int put(int kind, int in_edge, long t0, long t1, long last_start, int worker, int sfile, int efile) {
   int i = g_next++;
   T[i] = nondet_pi_node();
   T[i].info.kind = (dr_dag_node_kind_t)kind; T[i].info.in_edge_kind = (dr_dag_edge_kind_t)in_edge;
   T[i].info.worker = worker;
   T[i].info.start.t = t0; T[i].info.end.t = t1; T[i].info.last_start_t = last_start;
   T[i].info.start.pos.file = 0; T[i].info.end.pos.file = 0;               /* as dr_copy_dag_node_1 leaves them */
-  T[i].info.start.pos.file_idx = file; T[i].info.end.pos.file_idx = 1 - file;
+  T[i].info.start.pos.file_idx = sfile; T[i].info.end.pos.file_idx = efile;
   for (int k = 0; k < dr_dag_node_kind_section; k++) {
     long c = nondet_long(); __CPROVER_assume(0 <= c && c < (1L << 40)); T[i].info.logical_node_counts[k] = c;
   }
@@ -145,29 +149,32 @@ static int resume_kind(int after_b) {
   int by_child = (((DAG_SCEN) == 1 || (DAG_SCEN) == 2) ? 1 : 0) ^ after_b;
   return by_child ? dr_dag_edge_kind_end : dr_dag_edge_kind_wait_cont;
 }
+/* file names (indices into the string table of the original, h_copy): "a.c" = 0 occurs ONLY in the three nodes below
+   section B, which the conversion settings 1 and 2 prune -- so every later name moves to a smaller index in the table of
+   the copy; "b.c" = 1 and "c.c" = 2 elsewhere, most nodes starting and ending in the same file, some not */
 static void build_dag(void) {
   g_next = 0;
-  int u = put(dr_dag_node_kind_task, dr_dag_edge_kind_create, 0, 11, 10, -1, 0);
-  int a = put(dr_dag_node_kind_section, dr_dag_edge_kind_create, 0, 6, 5, A_CONTRACTED ? 0 : -1, 0);
-  int o = put(dr_dag_node_kind_other, resume_kind(0), 6, 7, 6, 0, 1);
-  int b = put(dr_dag_node_kind_section, dr_dag_edge_kind_other_cont, 7, 10, 9, 0, 1);      /* B ran on one worker, A on two */
-  int e = put(dr_dag_node_kind_end_task, resume_kind(1), 10, 11, 10, 0, 0);
+  int u = put(dr_dag_node_kind_task, dr_dag_edge_kind_create, 0, 11, 10, -1, 1, 2);
+  int a = put(dr_dag_node_kind_section, dr_dag_edge_kind_create, 0, 6, 5, A_CONTRACTED ? 0 : -1, 1, 1);
+  int o = put(dr_dag_node_kind_other, resume_kind(0), 6, 7, 6, 0, 2, 2);
+  int b = put(dr_dag_node_kind_section, dr_dag_edge_kind_other_cont, 7, 10, 9, 0, 2, 2);      /* B ran on one worker, A on two */
+  int e = put(dr_dag_node_kind_end_task, resume_kind(1), 10, 11, 10, 0, 2, 1);
   children(u, a, 4);
   (void)o; (void)e;
   if (!A_CONTRACTED) {
-    int y1 = put(dr_dag_node_kind_create_task, dr_dag_edge_kind_create, 0, 1, 0, 0, 0);
-    put(dr_dag_node_kind_other, dr_dag_edge_kind_create_cont, 2, 3, 2, 0, 1);
-    int y2 = put(dr_dag_node_kind_create_task, dr_dag_edge_kind_other_cont, 3, 4, 3, 0, 0);
-    put(dr_dag_node_kind_wait_tasks, dr_dag_edge_kind_create_cont, 5, 6, 5, 0, 1);
+    int y1 = put(dr_dag_node_kind_create_task, dr_dag_edge_kind_create, 0, 1, 0, 0, 1, 1);
+    put(dr_dag_node_kind_other, dr_dag_edge_kind_create_cont, 2, 3, 2, 0, 2, 2);
+    int y2 = put(dr_dag_node_kind_create_task, dr_dag_edge_kind_other_cont, 3, 4, 3, 0, 1, 2);
+    put(dr_dag_node_kind_wait_tasks, dr_dag_edge_kind_create_cont, 5, 6, 5, 0, 2, 2);
     children(a, y1, 4);
-    int c1 = put(dr_dag_node_kind_task, dr_dag_edge_kind_create, 1, 2, 1, 1, 1); T[y1].child_offset = c1 - y1;
-    int c2 = put(dr_dag_node_kind_task, dr_dag_edge_kind_create, 4, 5, 4, 1, 0); T[y2].child_offset = c2 - y2;
+    int c1 = put(dr_dag_node_kind_task, dr_dag_edge_kind_create, 1, 2, 1, 1, 1, 1); T[y1].child_offset = c1 - y1;
+    int c2 = put(dr_dag_node_kind_task, dr_dag_edge_kind_create, 4, 5, 4, 1, 2, 2); T[y2].child_offset = c2 - y2;
   }
   if (!B_CONTRACTED) {
-    int y3 = put(dr_dag_node_kind_create_task, dr_dag_edge_kind_other_cont, 7, 8, 7, 0, 1);
-    put(dr_dag_node_kind_wait_tasks, dr_dag_edge_kind_create_cont, 9, 10, 9, 0, 0);
+    int y3 = put(dr_dag_node_kind_create_task, dr_dag_edge_kind_other_cont, 7, 8, 7, 0, 0, 0);
+    put(dr_dag_node_kind_wait_tasks, dr_dag_edge_kind_create_cont, 9, 10, 9, 0, 0, 0);
     children(b, y3, 2);
-    int c3 = put(dr_dag_node_kind_task, dr_dag_edge_kind_create, 8, 9, 8, 0, 1); T[y3].child_offset = c3 - y3;
+    int c3 = put(dr_dag_node_kind_task, dr_dag_edge_kind_create, 8, 9, 8, 0, 0, 0); T[y3].child_offset = c3 - y3;
   }
   G.n = g_next; G.T = T; G.m = 0; G.E = 0; G.S = 0; G.num_workers = 2; G.start_clock = 0;
 }
@@ -213,6 +220,16 @@ static void check_edges(const dr_pi_dag * H) {
     covered = x->edges_end;
   }
   __CPROVER_assert(covered == H->m, "well-formed: the edge ranges cover E");
+}
+
+/* file index i2 of table S2 is inside S2 and names the same (3-character) string as index i1 of table S1 */
+static void same_name(const dr_pi_string_table * S1, long i1, const dr_pi_string_table * S2, long i2) {
+  __CPROVER_assert(0 <= i1 && i1 < S1->n, "file names: the index in the source DAG is inside its string table");
+  __CPROVER_assert(0 <= i2 && i2 < S2->n, "file names: every start / end file index of the result is inside the NEW string table");
+  __CPROVER_assume(0 <= i1 && i1 < S1->n && 0 <= i2 && i2 < S2->n);
+  const char * f1 = S1->C + S1->I[i1]; const char * f2 = S2->C + S2->I[i2];
+  __CPROVER_assert(f1[0] == f2[0] && f1[1] == f2[1] && f1[2] == f2[2] && f1[3] == 0 && f2[3] == 0,
+                   "file names: the index names the same string as in the source DAG");
 }
 
 /* ------------------------------------------------------------------ (d) observer of the replay */
@@ -273,10 +290,10 @@ dr_pi_dag G2;
 void h_copy(void) {
   setup();
   build_dag();
-  /* the string table of the original: two names */
-  S_IN.h.n = 2; S_IN.h.sz = sizeof(S_IN); S_IN.h.I = S_IN.I; S_IN.h.C = S_IN.C;
-  S_IN.I[0] = 0; S_IN.I[1] = 4;
-  S_IN.C[0] = 'a'; S_IN.C[1] = '.'; S_IN.C[2] = 'c'; S_IN.C[3] = 0; S_IN.C[4] = 'b'; S_IN.C[5] = '.'; S_IN.C[6] = 'c'; S_IN.C[7] = 0;
+  /* the string table of the original: three names (in the states where B was contracted at record time the first one is unused) */
+  S_IN.h.n = 3; S_IN.h.sz = FLAT3_BYTES; S_IN.h.I = S_IN.I; S_IN.h.C = S_IN.C;
+  S_IN.I[0] = 0; S_IN.I[1] = 4; S_IN.I[2] = 8;
+  for (int q = 0; q < 3; q++) { S_IN.C[4 * q] = (char)('a' + q); S_IN.C[4 * q + 1] = '.'; S_IN.C[4 * q + 2] = 'c'; S_IN.C[4 * q + 3] = 0; }
   G.S = &S_IN.h;
   g_plan[0] = P_EDGE; g_plan_n = 1;
   dr_pi_dag_enum_edges(&G);
@@ -295,7 +312,10 @@ void h_copy(void) {
   GS.opts.collapse_max_count = 0; GS.opts.uncollapse_min = 7; GS.opts.collapse_max = 0;
   expect_n = 5;
 #endif
-  g_plan[1] = P_MAP; g_plan[2] = P_NODE2; g_plan[3] = P_CELL; g_plan[4] = P_CELL; g_plan[5] = P_EDGE2; g_plan[6] = P_STR; g_plan_n = 7;
+  long expect_names = (COPY_SCEN == 0 && !B_CONTRACTED) ? 3 : 2;     /* "a.c" survives only if the nodes below B do */
+  g_plan[1] = P_MAP; g_plan[2] = P_NODE2; g_plan[3] = P_CELL; g_plan[4] = P_CELL;
+  if (expect_names == 3) { g_plan[5] = P_CELL; g_plan[6] = P_EDGE2; g_plan[7] = P_STR; g_plan_n = 8; }
+  else { g_plan[5] = P_EDGE2; g_plan[6] = P_STR; g_plan_n = 7; }
 
   dr_copy_pi_dag(&G2, &G);
 
@@ -309,17 +329,25 @@ void h_copy(void) {
     __CPROVER_assert(r2->logical_node_counts[k] == r->logical_node_counts[k], "conversion: shrinking preserves the interval counts of the root");
   for (int k = 0; k < dr_dag_edge_kind_max; k++)
     __CPROVER_assert(r2->logical_edge_counts[k] == r->logical_edge_counts[k], "conversion: shrinking preserves the edge counts of the root");
-  /* the surviving direct children of the root keep kind, times and file names */
-  for (int i = 1; i <= 4; i++) {
-    const dr_pi_dag_node * x = &G.T[i]; const dr_pi_dag_node * y = &G2.T[i];
-    __CPROVER_assert(y->info.kind == x->info.kind && y->info.start.t == x->info.start.t && y->info.end.t == x->info.end.t && y->info.t_1 == x->info.t_1,
-                     "conversion: a surviving node keeps its kind, interval and work");
-    const char * fx = G.S->C + G.S->I[x->info.start.pos.file_idx];
-    const char * fy = G2.S->C + G2.S->I[y->info.start.pos.file_idx];
-    __CPROVER_assert(0 <= y->info.start.pos.file_idx && y->info.start.pos.file_idx < G2.S->n && fx[0] == fy[0] && fy[1] == '.' && fy[2] == 'c' && fy[3] == 0,
-                     "conversion: a surviving node keeps its file name (re-interned into the new string table)");
+  /* every node of the copy is one node of the original (same kind and interval: unique in this DAG), keeps its work, and
+     its start / end file indices lie inside the NEW string table and name the same strings as in the original */
+  __CPROVER_assert(G2.S->n == expect_names && G2.S->sz == (long)(sizeof(dr_pi_string_table) + 12 * expect_names),
+                   "conversion: the new string table holds exactly the names in use");
+  for (int j = 0; j < NMAX; j++) if (j < G2.n) {
+    const dr_pi_dag_node * y = &G2.T[j];
+    int src = -1, matches = 0;
+    for (int i = 0; i < NMAX; i++) if (i < G.n) {
+      const dr_pi_dag_node * x = &G.T[i];
+      if (x->info.kind == y->info.kind && x->info.start.t == y->info.start.t && x->info.end.t == y->info.end.t) { src = i; matches++; }
+    }
+    __CPROVER_assert(matches == 1 && src >= j, "conversion: every node of the copy is one node of the original (same kind and interval), order kept");
+    __CPROVER_assume(matches == 1 && 0 <= src && src < G.n);
+    const dr_pi_dag_node * x = &G.T[src];
+    __CPROVER_assert(y->info.t_1 == x->info.t_1 && y->info.t_inf == x->info.t_inf && y->info.worker == x->info.worker && y->info.in_edge_kind == x->info.in_edge_kind,
+                     "conversion: a surviving node keeps its work, critical path, worker and in-edge kind");
+    same_name(G.S, x->info.start.pos.file_idx, G2.S, y->info.start.pos.file_idx);
+    same_name(G.S, x->info.end.pos.file_idx, G2.S, y->info.end.pos.file_idx);
   }
-  __CPROVER_assert(G2.S->n == 2 && G2.S->sz == sizeof(S_OUT), "conversion: the new string table holds the two names in use");
   VERIF_CANARY();
 }
 
@@ -390,5 +418,17 @@ void h_make(void) {
   check_offsets(&G2);
   check_edges(&G2);
   __CPROVER_assert(G2.S->n == 2 && G2.S->sz == sizeof(S_OUT), "flattening: the string table holds the two names in use");
+  for (int i = 0; i < NMAX; i++) if (i < 5 || (i <= 10 && !A_CONTRACTED) || (i >= 11 && !B_CONTRACTED)) {
+    const dr_pi_dag_node * f = PN[i].forward;         /* where the recorder's node went */
+    __CPROVER_assert(f >= G2.T && f < G2.T + G2.n && f->info.kind == PN[i].info.kind && f->info.start.t == PN[i].info.start.t - 100,
+                     "flattening: every recorded node has its position-independent copy inside T");
+    long si = f->info.start.pos.file_idx, ei = f->info.end.pos.file_idx;
+    __CPROVER_assert(0 <= si && si < G2.S->n && 0 <= ei && ei < G2.S->n, "file names: every start / end file index of the result is inside the NEW string table");
+    __CPROVER_assume(0 <= si && si < G2.S->n && 0 <= ei && ei < G2.S->n);
+    const char * fs = G2.S->C + G2.S->I[si]; const char * fe = G2.S->C + G2.S->I[ei];
+    __CPROVER_assert(fs[0] == PN[i].info.start.pos.file[0] && fs[1] == '.' && fs[2] == 'c' && fs[3] == 0 &&
+                     fe[0] == PN[i].info.end.pos.file[0] && fe[1] == '.' && fe[2] == 'c' && fe[3] == 0,
+                     "file names: the index names the string the recorder stored in the node");
+  }
   VERIF_CANARY();
 }
